@@ -1770,6 +1770,38 @@ def stale_after_callback(fn, is_callback, keep_kinds=()):
                 S = S | frozenset(add)
         return S
 
+    # Must-equality of pointer locals (`live = self`): a published marker local M that is found != NULL still holds the
+    # value of its last definition in this function (the only foreign writer, unregister, stores NULL through the
+    # published address), so every local that must hold that same value designates the same, live object.  Facts are
+    # pairs {x, y}; generated by a plain copy between locals (transitively), killed by any (re)definition of either
+    # and by passing the address of either to a call.
+    def eq_kill(E, x):
+        return frozenset(p for p in E if x not in p)
+
+    def eq_tr(e, E):
+        if e['ev'] == 'decl':
+            return eq_kill(E, e['name']) if E else E
+        if e['ev'] == 'store':
+            l = strip(e['lhs'])
+            if isinstance(l, dict) and l.get('k') == 'var':
+                x = l['name']
+                E = eq_kill(E, x) if E else E
+                r = strip(e['rhs']) if e.get('op') == '=' and 'rhs' in e else None
+                if is_localvar(l) and is_localvar(r) and r['name'] != x and x in objvars and r['name'] in objvars:
+                    y = r['name']
+                    peers = {y} | {z for p in E if y in p for z in p}
+                    E = E | frozenset(frozenset((x, z)) for z in peers if z != x)
+            return E
+        if e['ev'] == 'call' and E:
+            for a in e.get('args', []):
+                a = strip(a)
+                if isinstance(a, dict) and a.get('k') == 'addr' and isinstance(strip(a['e']), dict) and strip(a['e']).get('k') == 'var':
+                    E = eq_kill(E, strip(a['e'])['name'])
+        return E
+    eq_at = {}
+    if markers:
+        _, eq_at = forward(fn, frozenset(), eq_tr, lambda a, b: a & b)
+
     def edge(blk, si, S):
         if not S or not blk.term or blk.term.get('cond') is None or len(blk.succ) != 2:
             return S
@@ -1784,7 +1816,10 @@ def stale_after_callback(fn, is_callback, keep_kinds=()):
                     continue
                 if (op == '!=' and rc == '0') or (op == '==' and rc == markers[k]):
                     v = markers[k]
-                    S = frozenset(x for x in S if x[0] != v and derived.get(x[0]) != v)
+                    # locals that must hold, at this test, the value of the revived pointer (or of the marker local)
+                    E = eq_at.get((blk.id, len(blk.events))) or ()
+                    same = {v} | {z for p in E if (k in p or v in p) for z in p}
+                    S = frozenset(x for x in S if x[0] not in same and derived.get(x[0]) not in same)
         return S
 
     _, ev_in = forward(fn, frozenset(), transfer, lambda a, b: a | b, edge=edge)
